@@ -25,6 +25,7 @@ ADM_L = [[0, 1, 0], [0, 2, 0], [0, 3, 0]]
 CFGS = {
     't':   ('MC_TxPool_t.cfg',   {'accts': [1], 'universe': UT, 'P': 1, 'W': 1}),
     'g':   ('MC_TxPool_g.cfg',   {'accts': [1], 'universe': UG, 'P': 2, 'W': 2}),
+    'm':   ('MC_TxPool_m.cfg',   {'accts': [1, 2], 'universe': [[1, 0, 1], [1, 1, 1], [1, 0, 2], [2, 0, 1], [2, 1, 1]] + ADM_G, 'P': 2, 'W': 2}),
     'q':   ('MC_TxPool_q.cfg',   {'accts': [1, 2], 'universe': UQ + ADM_G, 'P': 2, 'W': 2}),
     'qs':  ('MC_TxPool_qs.cfg',  {'accts': [1, 2], 'universe': UQ + ADM_G, 'P': 2, 'W': 2}),
     'gs':  ('MC_TxPool_gs.cfg',  {'accts': [1], 'universe': UG, 'P': 2, 'W': 2}),
@@ -72,7 +73,7 @@ def run(ctx, replay=None):
     traces = []
 
     # 1. TxPool exhaustive; edge cover of the smallest configuration's state graph
-    for name in (['t', 'g'] if quick else ['t', 'g', 'q']):
+    for name in (['t', 'g'] if quick else ['t', 'g', 'm']):
         cfgfile, tcfg = CFGS[name]
         dump = name == 't'
         r = engine.tlc_check(ctx, SPEC, MODULE, cfgfile, name='TxPool/' + name, dump=dump, coverage=dump,
